@@ -63,9 +63,24 @@ func computeReal(c *circuit.Circuit, in []*big.Int) (out []*big.Int, errs string
 			errs = "panic: " + clip(fmt.Sprint(e), 200)
 		}
 	}()
-	cp := make([]*big.Int, len(in))
-	for i, v := range in {
-		cp[i] = new(big.Int).Set(v)
+	// circuit.Compute wants one value per flattened argument: a struct
+	// argument is given field by field (IOArg.Compound)
+	var cp []*big.Int
+	if len(in) != len(c.Inputs) {
+		return nil, fmt.Sprintf("harness: %d arguments for %d inputs", len(in), len(c.Inputs))
+	}
+	for i, io := range c.Inputs {
+		if len(io.Compound) == 0 {
+			cp = append(cp, new(big.Int).Set(in[i]))
+			continue
+		}
+		rest := new(big.Int).Set(in[i])
+		for _, sub := range io.Compound {
+			m := new(big.Int).Lsh(big.NewInt(1), uint(sub.Type.Bits))
+			m.Sub(m, big.NewInt(1))
+			cp = append(cp, new(big.Int).And(rest, m))
+			rest.Rsh(rest, uint(sub.Type.Bits))
+		}
 	}
 	out, err := c.Compute(cp)
 	if err != nil {
@@ -337,8 +352,12 @@ func modeGen(args []string) {
 			opts.defect = "inner_shadow"
 			opts.small = r.Bool()
 			opts.maxIn = exhLimit
-		default:
+		case cls < 99:
 			opts.defect = "cast_int_wider_uint"
+			opts.small = r.Bool()
+			opts.maxIn = exhLimit
+		default:
+			opts.defect = "named_result_zero"
 			opts.small = r.Bool()
 			opts.maxIn = exhLimit
 		}
